@@ -153,6 +153,14 @@ fn line(rng: &mut Rng, kind: u8) -> String {
         "-----END PGP SIGNATURE----- ",
         "-----BEGIN PGP SIGNED MESSAGE-----",
         "- -----BEGIN PGP SIGNATURE-----",
+        // a marker has exactly five dashes on each side
+        "------END PGP SIGNATURE------",
+        "------END PGP SIGNATURE-----",
+        "-----END PGP SIGNATURE------",
+        "------BEGIN PGP SIGNATURE-----",
+        "-----BEGIN PGP SIGNATURE-------",
+        "----------",
+        "-----END PGP SIGNATURE----------BEGIN PGP SIGNATURE-----",
         "Hash: SHA256",
         "Package: foo",
         " continuation",
@@ -305,6 +313,9 @@ impl Scenario for C19 {
         } else {
             unsigned.push(format!("{BEGIN_MSG}{deco}\nHash: SHA256\n\nx\n{BEGIN_SIG}\n{END_SIG}\n"));
         }
+        // more or fewer than five dashes on either side is not the marker
+        let (dl, dr) = [(6, 5), (5, 6), (6, 6), (4, 5), (5, 4), (7, 5), (10, 10)][rng.below(7)];
+        unsigned.push(format!("{}BEGIN PGP SIGNED MESSAGE{}\nHash: SHA256\n\nx\n{BEGIN_SIG}\n{END_SIG}\n", "-".repeat(dl), "-".repeat(dr)));
         // unsigned text with CR LF line ends comes back unchanged too (the first line is not the marker)
         unsigned.push("Origin: Debian\r\nLabel: Debian\r\n\r\nx\r\n".to_string());
         unsigned.push(format!("x\r\n{BEGIN_MSG}\r\n\r\ny\r\n"));
